@@ -13,7 +13,7 @@ from vt.props import c15
 PROPERTY_ID = 'C16'
 
 RULE = ('Hypothesis draws the state dimension d (1..3), snapshot count m (under- and over-determined, optionally with a '
-        'duplicated snapshot = exact rank deficiency), output dimension, scalar basis lists (coordinate-/function-major, '
+        'duplicated snapshot = exact rank deficiency), the form of the data (float / integer dtype / strided view / Fortran order) and of the right-hand sides (float / integer / Fortran), output dimension, scalar basis lists (coordinate-/function-major, '
         'add_one) or product bases of Function objects incl. user-defined ones and modes with a single function (kernel variant, ARR), thresholds (0 when the dense spectrum is well '
         'conditioned, 1e-9 otherwise), ARR guess ranks, repeats 1..4 and rcond = 1e-13. Oracle: numpy.linalg.pinv of the '
         'explicitly built transformed data matrix: Xi_mat == (y pinv(Psi, rcond))^T; kernel variant z G == y pinv(Psi) Psi; ARR '
@@ -32,6 +32,26 @@ ASSUMPTIONS = [
 
 SC = c15.SCALAR
 SCF = c15.SCALAR_F
+
+
+Y_FORM = st.sampled_from(['float', 'float', 'float', 'int', 'fortran'])
+
+
+def make_y(rng, shape, form):
+    """right-hand sides: float64, integer-typed (python users pass labels / counts), or Fortran-ordered"""
+    if form == 'int':
+        return rng.integers(-3, 4, shape).astype(np.int64)
+    y = rng.standard_normal(shape)
+    return np.asfortranarray(y) if form == 'fortran' else y
+
+
+def form_labels(c):
+    lab = set()
+    if c.get('data_form', 'float') != 'float':
+        lab.add('data_' + c['data_form'])
+    if c.get('y_form', 'float') != 'float':
+        lab.add('y_' + c['y_form'])
+    return lab
 
 
 def spectra_ok(psi, n_modes, zero_allowed):
@@ -58,14 +78,15 @@ def mandy_case(draw):
     if variant == 'cm' and 'one' not in names and draw(st.booleans()):
         names[0] = 'one'
     return {'d': d, 'variant': variant, 'phi': names, 'm': draw(st.sampled_from([2, 3, 4, 6, 9, 12])), 'add_one': draw(st.booleans()),
-            'duplicate': draw(st.sampled_from([False, False, True])), 'seed': draw(gen.SEED), 'ydim': draw(st.sampled_from(['d']))}
+            'duplicate': draw(st.sampled_from([False, False, True])), 'seed': draw(gen.SEED), 'ydim': draw(st.sampled_from(['d'])),
+            'data_form': draw(c15.DATA_FORM), 'y_form': draw(Y_FORM)}
 
 
 def body_mandy(c):
     x = c15.data(c)
     d, m = c['d'], c['m']
     rng = np.random.default_rng(c['seed'] + 1)
-    y = rng.standard_normal((d, m))
+    y = make_y(rng, (d, m), c.get('y_form', 'float'))
     names = c['phi']
     phi = [SCF[k] for k in names]
     if c['variant'] == 'cm':
@@ -113,7 +134,7 @@ def body_mandy(c):
         lab.add('d1')
     if th:
         lab.add('threshold>0')
-    return lab
+    return lab | form_labels(c)
 
 
 @st.composite
@@ -127,14 +148,14 @@ def kernel_case(draw):
     if gram == 'extra_snapshots':
         m = N + draw(st.integers(1, 3))         # more snapshots than product basis functions: singular Gram matrix
     return {'d': d, 'm': m, 'phi': phi, 'seed': draw(gen.SEED), 'dy': draw(st.integers(1, 3)), 'duplicate': gram == 'duplicate' and m >= 2,
-            'gram': gram}
+            'gram': gram, 'data_form': draw(c15.DATA_FORM), 'y_form': draw(Y_FORM)}
 
 
 def body_kernel(c):
     x = c15.data(c)
     m = c['m']
     rng = np.random.default_rng(c['seed'] + 1)
-    y = rng.standard_normal((c['dy'], m))
+    y = make_y(rng, (c['dy'], m), c.get('y_form', 'float'))
     phi = [[c15.make_fn(s) for s in f] for f in c['phi']]
     vals = [np.array([[c15.ref_value(s, x[:, j]) for j in range(m)] for s in f]) for f in c['phi']]
     M = c15.psi_ref(vals).reshape(-1, m)
@@ -157,7 +178,7 @@ def body_kernel(c):
         lab.add('single_function_mode')
     if any(s_['family'] in c15.USER_FAMS for f in c['phi'] for s_ in f):
         lab.add('user_defined_function')
-    return lab
+    return lab | form_labels(c)
 
 
 @st.composite
@@ -173,7 +194,7 @@ def arr_case(draw):
     for i in range(p - 1, -1, -1):          # and from the right: r_i <= n_i r_{i+1}
         ranks[i] = min(ranks[i], n[i] * ranks[i + 1])
     return {'d': d, 'm': draw(st.sampled_from([3, 5, 8, 12])), 'phi': phi, 'ranks': ranks, 'seed': draw(gen.SEED), 'dy': draw(st.integers(1, 2)),
-            'repeats': draw(st.integers(1, 4)), 'exact': draw(st.booleans())}
+            'repeats': draw(st.integers(1, 4)), 'exact': draw(st.booleans()), 'data_form': draw(c15.DATA_FORM), 'y_form': draw(Y_FORM)}
 
 
 def body_arr(c):
@@ -197,7 +218,7 @@ def body_arr(c):
         y = np.array([dense.contract([rng.standard_normal((c['ranks'][i], n[i], 1, c['ranks'][i + 1])) for i in range(p)]).reshape(-1) @ M
                       for _ in range(c['dy'])])
     else:
-        y = rng.standard_normal((c['dy'], m))
+        y = make_y(rng, (c['dy'], m), c.get('y_form', 'float'))
     g = TT([rng.standard_normal((c['ranks'][i], n[i], 1, c['ranks'][i + 1])) for i in range(p)])
     snap = build.snapshot(g)
     ynorm = max(np.linalg.norm(y), 1e-300)
@@ -233,16 +254,18 @@ def body_arr(c):
         lab.add('single_function_mode')
     if any(s_['family'] in c15.USER_FAMS for f in c['phi'] for s_ in f):
         lab.add('user_defined_function')
-    return lab
+    return lab | form_labels(c)
 
 
 def nt(labels):
-    return bool({'singular_gram', 'duplicated_snapshot', 'underdetermined', 'add_one_false', 'd1', 'several_outputs', 'exactly_fittable', 'threshold>0'} & set(labels))
+    return bool({'singular_gram', 'duplicated_snapshot', 'underdetermined', 'add_one_false', 'd1', 'several_outputs', 'exactly_fittable', 'threshold>0',
+                 'data_int', 'data_strided', 'data_fortran', 'y_int', 'y_fortran', 'single_function_mode'} & set(labels))
 
 
 SUBCHECKS = [
     Sub('mandy', mandy_case(), body_mandy, nt, quick=400, thorough=4000, shards_quick=4,
-        classes=['mandy_cm', 'mandy_fm', 'duplicated_snapshot', 'underdetermined', 'overdetermined', 'add_one_false', 'threshold>0', 'd1']),
+        classes=['mandy_cm', 'mandy_fm', 'duplicated_snapshot', 'underdetermined', 'overdetermined', 'add_one_false', 'threshold>0', 'd1',
+                 'data_int', 'data_strided', 'y_int']),
     Sub('kernel', kernel_case(), body_kernel, nt, quick=300, thorough=3000, classes=['kernel', 'several_outputs', 'singular_gram', 'regular_gram', 'single_function_mode', 'user_defined_function']),
     Sub('arr', arr_case(), body_arr, nt, quick=150, thorough=1500, shards_quick=6, budget_quick=150,
         classes=['arr', 'several_outputs', 'exactly_fittable', 'repeats1', 'repeats4', 'single_function_mode']),
